@@ -229,13 +229,30 @@ func (g *gsender) setChunk(v int) {
 // ---------- running one trace ----------
 
 // readAllMsgs reads until the first error or max messages.
-func readAllMsgs(p *rtmp.Protocol, max int) ([]string, string) {
+func readAllMsgs(p *rtmp.Protocol, max int) ([]string, string) { return readAllMsgsLag(p, max, 0, nil) }
+
+// readAllMsgsLag reads like readAllMsgs while the application, as applications do, hands the messages it received to
+// DecodeMessage some messages LATER than the read loop got them (lag > 0), and now and then decodes a message that came
+// from elsewhere (foreign, e.g. relayed from another connection). DecodeMessage turns a message into a packet; what the
+// reader does with the peer's chunk stream is governed by what the peer sent on this connection and by nothing else.
+func readAllMsgsLag(p *rtmp.Protocol, max, lag int, foreign *rtmp.Message) ([]string, string) {
 	var got []string
+	var held []*rtmp.Message
 	status := h.Safe(func() string {
 		for i := 0; i < max; i++ {
 			m, err := p.ReadMessage()
 			if err != nil {
 				return errClass(err)
+			}
+			if lag > 0 {
+				held = append(held, m)
+				if len(held) > lag {
+					p.DecodeMessage(held[0])
+					held = held[1:]
+				}
+				if foreign != nil && i%3 == 1 {
+					p.DecodeMessage(foreign)
+				}
 			}
 			cid, ty, sid, ts, plen := rtmp.VerifMessageFields(m)
 			if int(plen) != len(m.Payload) {
@@ -314,7 +331,15 @@ func implRead(c *h.Ctx, wire []byte, mode, max int) (string, string, uint32) {
 		pr.WritePacket(sc, 0)
 		pr.WriteMessage(rtmp.VerifNewMessage(5, 9, 1, 0, make([]byte, 300)))
 	}
-	got, status := readAllMsgs(pr, max)
+	lag := 0
+	var foreign *rtmp.Message
+	if c.R.Chance(35) {
+		lag = c.R.Pick(1, 1, 2, 3)
+		if c.R.Chance(30) {
+			foreign = rtmp.VerifNewMessage(2, 1, 0, 0, be32(uint32(c.R.Pick(1, 77, 128, 60000))))
+		}
+	}
+	got, status := readAllMsgsLag(pr, max, lag, foreign)
 	in, _ := rtmp.VerifChunkSizes(pr)
 	return joinMsgs(got), status, in
 }
@@ -719,6 +744,33 @@ func c02(c *h.Ctx) {
 		g.whole(6, 1, 3, 0, 0, 0, 0, 0) // type 3 starts the next message: same length, delta = 7
 		g.whole(64, 2, 0, 1000, 300, 8, 1, 0)
 		runConformant(c, "large-chunk-size", g, nextMode())
+	}
+
+	// many chunk streams on one connection (the id space has 65598 of them): every stream keeps the header state that
+	// the compressed headers refer to, however many other streams the peer has opened in between
+	for _, n := range []int{65, 66, 100, 130, c.N(300, 2000)} {
+		g := newSender(r.Fork())
+		cidOf := func(i int) (int, int) {
+			switch {
+			case i < 62:
+				return 2 + i, 1
+			case i < 90:
+				return 2 + i, 2 + i%2
+			}
+			return 320 + (i-90)*31, 3
+		}
+		for i := 0; i < n; i++ {
+			cid, form := cidOf(i)
+			g.whole(cid, form, 0, uint64(1000+i), 1+i%5, 9, 1, 0)
+		}
+		for i := 0; i < n; i += 1 + i%3 {
+			cid, form := cidOf(i)
+			g.whole(cid, form, 1+i%3, uint64(10+i%7), 1+i%4, 8, 1, 0)
+		}
+		runConformant(c, "many-streams", g, nextMode())
+	}
+	for i := 0; i < c.N(3, 20); i++ {
+		runConformant(c, "many-streams.random", randomTrace(r.Fork(), 80+r.Intn(120), 300, false), nextMode())
 	}
 
 	// sweep of chunk stream ids in every legal basic-header form (quick: all of 2..319, 3-byte form sampled)
